@@ -1027,15 +1027,15 @@ func init() {
 		NotCov:      "the announcement-order history over all interleavings, and delivery across epochs end-to-end.",
 		Assumptions: commonAssumptions})
 	register(&Def{ID: "C23", Run: c23,
-		Explain:     "Decides a necessary condition of progress only (no lost wake-up): every blocking wait in the server's Session/Listen and the client's execute/Send/Recv takes a channel that comes from the wait-channel getter of the guarded state and, inside loops, is re-obtained (or the variable reset) in every iteration; the attaching server call takes its channel before its own broadcast; guarded state is only touched under its guard on both sides (LOCKSET). (OWNCHECK) the client mailbox protocol: Send keeps 'I transmitted' across a re-open and the close handler empties the slot; (GATE) a session tracker is dropped only with both endpoints detached and a peer tracker only when it neither listens nor is wanted. (CALLARG) per-peer client routines are built with keyed.WithBackoff; (MUSTCALL) the controller deletes a listen-session entry whenever it releases it; wake helpers as in C22; no lock leak.",
+		Explain:     "Decides a necessary condition of progress only (no lost wake-up): every blocking wait in the server's Session/Listen and the client's execute/Send/Recv takes a channel that comes from the wait-channel getter of the guarded state and, inside loops, is re-obtained (or the variable reset) in every iteration; the attaching server call takes its channel before its own broadcast; guarded state is only touched under its guard on both sides (LOCKSET). (OWNCHECK) the client mailbox protocol: Send keeps 'I transmitted' across a re-open and the close handler empties the slot; (GATE) a session tracker is dropped only with both endpoints detached and a peer tracker only when it neither listens nor is wanted. (CALLARG) per-peer client routines are built with keyed.WithBackoff; (MUSTCALL) the controller deletes a listen-session entry whenever it releases it; wake helpers as in C22; no lock leak. (PTRCMP) the relay's saved epoch does not alias the current epoch variable and epoch values, not pointers, are compared; (MUSTCALL) the client's open handler resets recv, recvProcessed, outSent and outAcked; (OWNCHECK) an acknowledgement is consumed only for the call's own message.",
 		NotCov:      "liveness itself: fairness and eventualities are outside static analysis. The client Send stall after a re-open with a message in flight (DESIGN D6) is NOT detected by these rules.",
 		Assumptions: commonAssumptions})
 	register(&Def{ID: "C24", Run: c24,
-		Explain:     "Decides on SSA: (CONSTFIELD) the 'listening' flag that keeps a live listener's tracker from being released is assigned true by Listen before it first unlocks; (R1) the release helper deletes a peer tracker only when listening is false and nobody wants the peer; (WHO) Server.peers is mutated only by the get-or-create and release helpers; Listen's diff loop tests sent[id] for ids ranged from wantPeers and wantPeers[id] for ids ranged from the sent set, and updates the sent set only after the corresponding Send succeeded; Session inserts its want once and deletes it in its cleanup; waits are lost-wake-up free; LOCKSET on Server.mtx. (GATE) the cleanup withdraws the want only while this call is still the registered one; a peer tracker is dropped only when it neither listens nor is wanted. Signaling codec sanity (a withdrawal never travels as an announcement); client retry/reset obligations as in C23.",
+		Explain:     "Decides on SSA: (CONSTFIELD) the 'listening' flag that keeps a live listener's tracker from being released is assigned true by Listen before it first unlocks; (R1) the release helper deletes a peer tracker only when listening is false and nobody wants the peer; (WHO) Server.peers is mutated only by the get-or-create and release helpers; Listen's diff loop tests sent[id] for ids ranged from wantPeers and wantPeers[id] for ids ranged from the sent set, and updates the sent set only after the corresponding Send succeeded; Session inserts its want once and deletes it in its cleanup; waits are lost-wake-up free; LOCKSET on Server.mtx. (GATE) the cleanup withdraws the want only while this call is still the registered one; a peer tracker is dropped only when it neither listens nor is wanted. Signaling codec sanity (a withdrawal never travels as an announcement); client retry/reset obligations as in C23. (GATE/ORDER) Listen's cleanup clears the listening flag only while it is still the registered call (same tracker, same nonce) and before it offers the tracker for release.",
 		NotCov:      "eventual equality of announced and wanting sets over all histories (a liveness/model statement).",
 		Assumptions: commonAssumptions})
 	register(&Def{ID: "C25", Run: c25,
-		Explain:     "Decides on SSA: an older Listen returns an error once the tracker's nonce differs from the one it registered, and a new Listen bumps the nonce of an existing tracker before unlocking; Session returns an error once its peer slot holds another call; both deferred cleanups call the release helpers only when still the registered call and under Server.mtx; peers/sessions maps are mutated only through get-or-create / maybe-release helpers (WHO); a session tracker is deleted only when both slots are empty; (ROLE) the session key is the (min,max) ordered pair under strings.Compare with a flag telling the caller's side; LOCKSET. (GATE) the Listen cleanup acts only when the registered tracker is the very tracker of this call and the nonce is unchanged; (PROVENANCE) the tracker released by Session's cleanup is the destination's; release predicates as in C23. wake helpers (unconditional broadcast, 64-bit counters) and epoch sections shared with C22/C23.",
+		Explain:     "Decides on SSA: an older Listen returns an error once the tracker's nonce differs from the one it registered, and a new Listen bumps the nonce of an existing tracker before unlocking; Session returns an error once its peer slot holds another call; both deferred cleanups call the release helpers only when still the registered call and under Server.mtx; peers/sessions maps are mutated only through get-or-create / maybe-release helpers (WHO); a session tracker is deleted only when both slots are empty; (ROLE) the session key is the (min,max) ordered pair under strings.Compare with a flag telling the caller's side; LOCKSET. (GATE) the Listen cleanup acts only when the registered tracker is the very tracker of this call and the nonce is unchanged; (PROVENANCE) the tracker released by Session's cleanup is the destination's; release predicates as in C23. wake helpers (unconditional broadcast, 64-bit counters) and epoch sections shared with C22/C23. (GATE/ORDER) Listen's cleanup clears the listening flag only while it is still the registered call and before it offers the tracker for release.",
 		NotCov:      "emptiness of the maps at quiescence for all histories.",
 		Assumptions: commonAssumptions})
 }
